@@ -8,7 +8,10 @@
 (*   rules       for each of the ten mixin RPCs: 0 = no `http.rules` entry,*)
 (*               1 / 2 = one of two entries (verb, path, body) of RuleOf   *)
 (*   own         the API itself declares SetIamPolicy / GetIamPolicy /     *)
-(*               TestIamPermissions RPCs (all three)                       *)
+(*               TestIamPermissions RPCs (all three), in service Carrier   *)
+(*   layout      "single": the API has the one service Carrier;            *)
+(*               "own_first" / "own_last": it has a second service Other   *)
+(*               with ordinary RPCs only, declared after / before Carrier  *)
 (*   transports  the `transport` plugin option                             *)
 (*   legacy      the `add-iam-methods` plugin option                       *)
 (*   tmpl        template set ("default" | "ads")                          *)
@@ -17,13 +20,15 @@
 (*               speaks about the clients that exist)                      *)
 (*                                                                         *)
 (* Actions (one per observable step):                                      *)
-(*   SelectMixins      generation: which mixin methods each client exposes *)
-(*   CallMixin(m, k)   a caller invokes mixin method m on client kind k    *)
+(*   SelectMixins      generation: which mixin methods each client of each *)
+(*                     service exposes                                     *)
+(*   CallMixin(s,m,k)  a caller invokes mixin method m on client kind k of *)
+(*                     service s                                           *)
 (*                     (grpc = sync client over gRPC, grpc_asyncio =       *)
 (*                     asyncio client over gRPC, rest = sync client over   *)
 (*                     REST); `call` is what the server sees / the caller  *)
 (*                     gets back                                           *)
-(*   CallOwn(m, k)     a caller invokes an IAM RPC the API declares itself *)
+(*   CallOwn(s, m, k)  a caller invokes an IAM RPC the API declares itself *)
 (*                                                                         *)
 (* Written from the property text; the invariants below restate it clause  *)
 (* by clause.  Named restrictions of the input space: own /\ legacy is     *)
@@ -99,16 +104,21 @@ RuleOf(m, i) ==
 Uri(m, i) == RuleOf(m, i).pre \o "{" \o Field(m) \o "=" \o Pattern(m) \o "}" \o RuleOf(m, i).suf
 Expanded(m, i) == RuleOf(m, i).pre \o Value(m) \o RuleOf(m, i).suf
 
-\* the carrier API: service acme.mx.v1.Carrier; when `own`, it declares the three IAM RPCs itself
-OwnService == "acme.mx.v1.Carrier"
+\* the carrier API: package acme.mx.v1; service Carrier (declares the three IAM RPCs itself when `own`) and,
+\* in the two-service layouts, service Other
+Svcs == {"Carrier", "Other"}
+OwnService == "Carrier"
+ServicePath(sv) == "/acme.mx.v1." \o sv \o "/"
 Kinds == {"grpc", "grpc_asyncio", "rest"}
+ClientKinds == {"sync", "asyncio"}
 ClientOf(k) == IF k = "grpc_asyncio" THEN "asyncio" ELSE "sync"
-NoCall == [m |-> "-", kind |-> "-", via |-> "-", path |-> "-", reqtype |-> "-", resptype |-> "-",
+NoCall == [svc |-> "-", m |-> "-", kind |-> "-", via |-> "-", path |-> "-", reqtype |-> "-", resptype |-> "-",
            hkey |-> "-", hval |-> "-", verb |-> "-", body |-> "-", extra |-> "-"]
+NoneExposed == [sv \in Svcs |-> [c \in ClientKinds |-> {}]]
 
-VARIABLES apis, rules, own, transports, legacy, tmpl, clients, phase, exposed, call
-vars == <<apis, rules, own, transports, legacy, tmpl, clients, phase, exposed, call>>
-cfgvars == <<apis, rules, own, transports, legacy, tmpl, clients>>
+VARIABLES apis, rules, own, layout, transports, legacy, tmpl, clients, phase, exposed, call
+vars == <<apis, rules, own, layout, transports, legacy, tmpl, clients, phase, exposed, call>>
+cfgvars == <<apis, rules, own, layout, transports, legacy, tmpl, clients>>
 
 \* ---- input space ----------------------------------------------------------------------------------
 \* Pairwise-covering family of rule assignments: the 27 rows (a, b, c) of Z3^3 against ten pairwise
@@ -134,24 +144,38 @@ TransportSets == {{"grpc"}, {"rest"}, {"grpc", "rest"}}
 AdsOk == /\ apis \in {Apis, {OPS}, {IAM}, {LOC}, {OPS, LOC}}
          /\ rules \in {AllRules(1), AllRules(2), Row(1, 1, 0), Row(1, 2, 1), Row(2, 1, 2)}
          /\ transports \in {{"grpc"}, {"grpc", "rest"}}
+         /\ layout \in {"single", "own_first"}
 \* replay grid of the thorough tier: every rule set with both transports, single transports with a third of them;
-ThoroughOk == /\ transports = {"grpc", "rest"} \/ rules \in {AllRules(1), AllRules(2)} \cup OARows({0})
+\* the two-service layouts with both transports
+ThoroughOk == /\ transports = {"grpc", "rest"} \/ (layout = "single" /\ rules \in {AllRules(1), AllRules(2)} \cup OARows({0}))
               /\ own => (IAM \in apis \/ apis = {})        \* own IAM RPCs matter where IAM mixins could be selected
+\* the exhaustive rule space of the "full" scope is explored for the single-service layout
+FullOk == layout = "single" \/ rules \notin ([RPCs -> {0, 1}] \ ({AllRules(1)} \cup OARows({0, 1, 2})))
 Init == /\ apis \in SUBSET Apis /\ rules \in RuleSets /\ own \in BOOLEAN /\ legacy \in BOOLEAN
         /\ ~(own /\ legacy)
+        /\ layout \in (IF own THEN {"single", "own_first", "own_last"} ELSE {"single"})
         /\ transports \in TransportSets
         /\ (Scope = "thorough" => ThoroughOk)
+        /\ (Scope = "full" => FullOk)
         /\ tmpl \in (IF Scope = "small" THEN {"default"} ELSE {"default", "ads"})
         /\ (tmpl = "ads" => AdsOk)
         /\ clients \in {{"sync"}, {"sync", "asyncio"}}
-        /\ phase = "generated" /\ exposed = [c \in {"sync", "asyncio"} |-> {}] /\ call = NoCall
+        /\ phase = "generated" /\ exposed = NoneExposed /\ call = NoCall
+
+\* the services of the API, in declaration order
+ServiceSeq == CASE layout = "own_first" -> <<"Carrier", "Other">>
+                [] layout = "own_last" -> <<"Other", "Carrier">>
+                [] OTHER -> <<"Carrier">>
+Services == Range(ServiceSeq)
 
 \* ---- SelectMixins ---------------------------------------------------------------------------------
 Listed(m) == ApiOf(m) \in apis
 HasRule(m) == rules[m] # 0
-OwnRPCs == IF own THEN IamRPCs ELSE {}
-\* a mixin RPC yields iff the API declares an RPC of the same name
-Yields(m) == m \in OwnRPCs /\ Mutant # "no_yield"
+OwnRPCs == IF own THEN IamRPCs ELSE {}                     \* IAM RPCs declared by the API itself (any service)
+OwnOn(sv) == IF sv = OwnService THEN OwnRPCs ELSE {}        \* ... by service sv
+\* a mixin RPC yields iff the API declares an RPC of the same name (whichever service declares it)
+Yields(m) == /\ m \in OwnRPCs /\ Mutant # "no_yield"
+             /\ ~(Mutant = "last_service_decides" /\ Last(ServiceSeq) # OwnService)
 FromYaml == { m \in RPCs : /\ (Listed(m) \/ Mutant = "ignore_apis")
                            /\ (HasRule(m) \/ (Mutant = "expose_without_rule" /\ m = "GetOperation"))
                            /\ ~Yields(m) }
@@ -161,12 +185,13 @@ SelectedFor(c) == CASE c = "asyncio" /\ Mutant = "async_lacks_one" -> Selected \
                     [] c = "asyncio" /\ Mutant = "legacy_sync_only" -> FromYaml
                     [] OTHER -> Selected
 SelectMixins == /\ phase = "generated"
-                /\ exposed' = [c \in {"sync", "asyncio"} |-> IF c \in clients THEN SelectedFor(c) ELSE {}]
+                /\ exposed' = [sv \in Svcs |-> [c \in ClientKinds |->
+                                  IF sv \in Services /\ c \in clients THEN SelectedFor(c) ELSE {}]]
                 /\ phase' = "selected"
                 /\ UNCHANGED <<cfgvars, call>>
 
-\* names a caller finds on client c among the ten mixin method names (the API's own IAM RPCs included)
-Present(c) == IF c \in clients THEN exposed[c] \cup OwnRPCs ELSE {}
+\* names a caller finds on client c of service sv among the ten mixin method names (the service's own IAM RPCs included)
+Present(sv, c) == IF sv \in Services /\ c \in clients THEN exposed[sv][c] \cup OwnOn(sv) ELSE {}
 
 \* ---- calls ----------------------------------------------------------------------------------------
 KindUsable(k) == /\ ClientOf(k) \in clients
@@ -174,8 +199,8 @@ KindUsable(k) == /\ ClientOf(k) \in clients
 \* REST calls of the legacy IAM methods are outside the property (no http rule exists for them)
 OutOfScope(m, k) == k = "rest" /\ legacy /\ m \in IamRPCs
 CanonicalPath(m) == "/" \o ApiOf(m) \o "/" \o m
-GrpcCall(m, k) ==
-  [m |-> m, kind |-> k, via |-> "mixin",
+GrpcCall(sv, m, k) ==
+  [svc |-> sv, m |-> m, kind |-> k, via |-> "mixin",
    path |-> IF Mutant = "wrong_path" /\ m = "CancelOperation" THEN "/google.longrunning.Operations/CancelOperations"
             ELSE CanonicalPath(m),
    reqtype |-> ReqType(m),
@@ -184,48 +209,49 @@ GrpcCall(m, k) ==
             ELSE IF Mutant = "no_header" /\ m = "WaitOperation" THEN "" ELSE Field(m),
    hval |-> IF Mutant = "no_header" /\ m = "WaitOperation" THEN "" ELSE Value(m),
    verb |-> "-", body |-> "-", extra |-> "-"]
-RestCall(m) ==
+RestCall(sv, m) ==
   LET r == RuleOf(m, rules[m]) IN
-  [m |-> m, kind |-> "rest", via |-> "mixin", path |-> Expanded(m, rules[m]), reqtype |-> "-", resptype |-> "-",
+  [svc |-> sv, m |-> m, kind |-> "rest", via |-> "mixin", path |-> Expanded(m, rules[m]), reqtype |-> "-", resptype |-> "-",
    hkey |-> "-", hval |-> "-",
    verb |-> IF Mutant = "rest_wrong_verb" /\ r.verb = "put" THEN "post" ELSE r.verb,
    body |-> IF r.body = "*" /\ Mutant # "rest_drops_body" THEN "json" ELSE "none",
    extra |-> IF ~HasExtra(m) THEN "none" ELSE IF r.body = "*" /\ Mutant # "rest_drops_body" THEN "body" ELSE "query"]
-CallRec(m, k) == IF k = "rest" THEN RestCall(m) ELSE GrpcCall(m, k)
+CallRec(sv, m, k) == IF k = "rest" THEN RestCall(sv, m) ELSE GrpcCall(sv, m, k)
 \* the API's own RPC is reached (the property says nothing else about it; its REST form is C04's business)
-OwnRec(m, k) == [NoCall EXCEPT !.m = m, !.kind = k, !.via = "own",
-                               !.path = IF k = "rest" THEN "-" ELSE "/" \o OwnService \o "/" \o m]
+OwnRec(sv, m, k) == [NoCall EXCEPT !.svc = sv, !.m = m, !.kind = k, !.via = "own",
+                                   !.path = IF k = "rest" THEN "-" ELSE ServicePath(sv) \o m]
 
-CanCallMixin(m, k) == KindUsable(k) /\ m \in exposed[ClientOf(k)] /\ ~OutOfScope(m, k)
-CanCallOwn(m, k) == KindUsable(k) /\ m \in OwnRPCs /\ m \notin exposed[ClientOf(k)]
-CallMixin(m, k) == /\ phase = "selected" /\ CanCallMixin(m, k)
-                   /\ call' = CallRec(m, k)
-                   /\ UNCHANGED <<cfgvars, phase, exposed>>
-CallOwn(m, k) == /\ phase = "selected" /\ CanCallOwn(m, k)
-                 /\ call' = OwnRec(m, k)
-                 /\ UNCHANGED <<cfgvars, phase, exposed>>
+CanCallMixin(sv, m, k) == sv \in Services /\ KindUsable(k) /\ m \in exposed[sv][ClientOf(k)] /\ ~OutOfScope(m, k)
+CanCallOwn(sv, m, k) == sv \in Services /\ KindUsable(k) /\ m \in OwnOn(sv) /\ m \notin exposed[sv][ClientOf(k)]
+CallMixin(sv, m, k) == /\ phase = "selected" /\ CanCallMixin(sv, m, k)
+                       /\ call' = CallRec(sv, m, k)
+                       /\ UNCHANGED <<cfgvars, phase, exposed>>
+CallOwn(sv, m, k) == /\ phase = "selected" /\ CanCallOwn(sv, m, k)
+                     /\ call' = OwnRec(sv, m, k)
+                     /\ UNCHANGED <<cfgvars, phase, exposed>>
 
-Next == SelectMixins \/ \E m \in RPCs, k \in Kinds : CallMixin(m, k) \/ CallOwn(m, k)
+Next == SelectMixins \/ \E sv \in Svcs, m \in RPCs, k \in Kinds : CallMixin(sv, m, k) \/ CallOwn(sv, m, k)
 Spec == Init /\ [][Next]_vars /\ WF_vars(SelectMixins)
 
 -----------------------------------------------------------------------------
-(* The property, clause by clause.                                         *)
+(* The property, clause by clause; "the clients" = every client class of every service of the API. *)
 Sel == phase = "selected"
 \* "for each API named under `apis`, the clients expose exactly those mixin RPCs that have an HTTP rule"
-Inv_OnlyWithRule == Sel => \A c \in clients : \A m \in exposed[c] :
+Inv_OnlyWithRule == Sel => \A sv \in Services, c \in clients : \A m \in exposed[sv][c] :
                        (legacy /\ m \in IamRPCs) \/ (ApiOf(m) \in apis /\ rules[m] \in {1, 2})
-Inv_AllWithRule == Sel => \A c \in clients : \A m \in RPCs :
-                       (ApiOf(m) \in apis /\ rules[m] \in {1, 2} /\ ~(own /\ ApiOf(m) = IAM)) => m \in exposed[c]
+Inv_AllWithRule == Sel => \A sv \in Services, c \in clients : \A m \in RPCs :
+                       (ApiOf(m) \in apis /\ rules[m] \in {1, 2} /\ ~(own /\ ApiOf(m) = IAM)) => m \in exposed[sv][c]
 \* "none are exposed when the API is not listed"
-Inv_NotListedNone == Sel => \A c \in clients : \A a \in Apis \ apis :
-                       ~(legacy /\ a = IAM) => \A m \in exposed[c] : ApiOf(m) # a
-\* "IAM mixins yield to same-named RPCs defined by the API itself"
-Inv_IamYields == Sel /\ own => \A c \in clients : exposed[c] \cap IamRPCs = {}
+Inv_NotListedNone == Sel => \A sv \in Services, c \in clients : \A a \in Apis \ apis :
+                       ~(legacy /\ a = IAM) => \A m \in exposed[sv][c] : ApiOf(m) # a
+\* "IAM mixins yield to same-named RPCs defined by the API itself": on no client of any service, wherever the
+\* declaring service stands among the services of the API
+Inv_IamYields == Sel /\ own => \A sv \in Services, c \in clients : exposed[sv][c] \cap IamRPCs = {}
 \* "the legacy add-iam-methods option exposes the three IAM RPCs on sync and asyncio clients alike"
-Inv_Legacy == Sel /\ legacy => \A c \in clients : IamRPCs \subseteq exposed[c]
-\* every client kind exposes the same set
-Inv_Alike == Sel => \A c, d \in clients : exposed[c] = exposed[d]
-Inv_NoClientNoMethods == \A c \in {"sync", "asyncio"} \ clients : exposed[c] = {}
+Inv_Legacy == Sel /\ legacy => \A sv \in Services, c \in clients : IamRPCs \subseteq exposed[sv][c]
+\* every client of every service exposes the same set
+Inv_Alike == Sel => \A sv, tv \in Services : \A c, d \in clients : exposed[sv][c] = exposed[tv][d]
+Inv_NoClientNoMethods == \A sv \in Svcs, c \in ClientKinds : (sv \notin Services \/ c \notin clients) => exposed[sv][c] = {}
 
 IsGrpcMixin == call.via = "mixin" /\ call.kind \in {"grpc", "grpc_asyncio"}
 \* "over gRPC they call the canonical /google.<...>/<Method> path"   (the ten paths, written out)
@@ -253,17 +279,18 @@ Inv_Rest == (call.via = "mixin" /\ call.kind = "rest") =>
               /\ call.body = (IF r.body = "*" THEN "json" ELSE "none")
               /\ (HasExtra(call.m) => call.extra = (IF r.body = "*" THEN "body" ELSE "query"))
 \* only exposed methods are callable as mixins, the API's own RPCs keep their own path
-Inv_CallsExposed == call.via = "mixin" => call.m \in exposed[ClientOf(call.kind)]
-Inv_OwnWins == call.via = "own" => own /\ call.m \in IamRPCs /\
+Inv_CallsExposed == call.via = "mixin" => call.svc \in Services /\ call.m \in exposed[call.svc][ClientOf(call.kind)]
+Inv_OwnWins == call.via = "own" => own /\ call.svc = "Carrier" /\ call.m \in IamRPCs /\
                  (call.kind # "rest" => call.path = "/acme.mx.v1.Carrier/" \o call.m)
 Live == <>Sel
 
 \* ---- spec -> code: one case per configuration with everything the specification predicts ------------
 RpcSeqOf(S) == SelectSeq(RPCSeq, LAMBDA m : m \in S)
 KindSeq == <<"grpc", "grpc_asyncio", "rest">>
-PairsSeq(P(_, _)) ==      \* all <<m, k>> with P(m, k), in the fixed order RPCSeq x KindSeq
-  LET all == [i \in 1..30 |-> <<RPCSeq[((i - 1) \div 3) + 1], KindSeq[((i - 1) % 3) + 1]>>]
-  IN SelectSeq(all, LAMBDA p : P(p[1], p[2]))
+SvcSeq == <<"Carrier", "Other">>
+TriplesSeq(P(_, _, _)) ==      \* all <<sv, m, k>> with P(sv, m, k), in the fixed order SvcSeq x RPCSeq x KindSeq
+  LET all == [i \in 1..60 |-> <<SvcSeq[((i - 1) \div 30) + 1], RPCSeq[(((i - 1) % 30) \div 3) + 1], KindSeq[((i - 1) % 3) + 1]>>]
+  IN SelectSeq(all, LAMBDA p : P(p[1], p[2], p[3]))
 Case ==
   [ apis |-> SelectSeq(ApiSeq, LAMBDA a : a \in apis),
     rulecode |-> rules,
@@ -271,17 +298,17 @@ Case ==
                  LET m == RpcSeqOf({x \in RPCs : rules[x] # 0})[i] IN
                  [selector |-> ApiOf(m) \o "." \o m, verb |-> RuleOf(m, rules[m]).verb, uri |-> Uri(m, rules[m]),
                   body |-> RuleOf(m, rules[m]).body]],
-    own |-> own, legacy |-> legacy, tmpl |-> tmpl,
+    own |-> own, layout |-> layout, services |-> ServiceSeq, legacy |-> legacy, tmpl |-> tmpl,
     transports |-> SelectSeq(<<"grpc", "rest">>, LAMBDA t : t \in transports),
     clients |-> SelectSeq(<<"sync", "asyncio">>, LAMBDA c : c \in clients),
     table |-> [i \in 1..10 |-> [rpc |-> RPCSeq[i], snake |-> Snake(RPCSeq[i]), reqtype |-> ReqType(RPCSeq[i]),
                                 resptype |-> WireRespType(RPCSeq[i]), field |-> Field(RPCSeq[i]), value |-> Value(RPCSeq[i])]],
-    expect |-> [ present |-> [sync |-> RpcSeqOf(Present("sync")), asyncio |-> RpcSeqOf(Present("asyncio"))],
-                 calls |-> LET ps == PairsSeq(LAMBDA m, k : CanCallMixin(m, k) \/ CanCallOwn(m, k)) IN
-                           [i \in 1..Len(ps) |-> IF CanCallMixin(ps[i][1], ps[i][2]) THEN CallRec(ps[i][1], ps[i][2])
-                                                 ELSE OwnRec(ps[i][1], ps[i][2])],
-                 outofscope |-> LET ps == PairsSeq(LAMBDA m, k : OutOfScope(m, k)) IN
-                                [i \in 1..Len(ps) |-> [m |-> ps[i][1], kind |-> ps[i][2]]] ] ]
+    expect |-> [ present |-> [sv \in Svcs |-> [sync |-> RpcSeqOf(Present(sv, "sync")), asyncio |-> RpcSeqOf(Present(sv, "asyncio"))]],
+                 calls |-> LET ps == TriplesSeq(LAMBDA sv, m, k : CanCallMixin(sv, m, k) \/ CanCallOwn(sv, m, k)) IN
+                           [i \in 1..Len(ps) |-> IF CanCallMixin(ps[i][1], ps[i][2], ps[i][3]) THEN CallRec(ps[i][1], ps[i][2], ps[i][3])
+                                                 ELSE OwnRec(ps[i][1], ps[i][2], ps[i][3])],
+                 outofscope |-> LET ps == TriplesSeq(LAMBDA sv, m, k : sv \in Services /\ OutOfScope(m, k)) IN
+                                [i \in 1..Len(ps) |-> [svc |-> ps[i][1], m |-> ps[i][2], kind |-> ps[i][3]]] ] ]
 \* emitted once per configuration and set of client classes (the harness picks the one the emitted library has)
 Emit == (Sel /\ call = NoCall) => PrintT(<<"CASE", ToJson(Case)>>)
 =============================================================================
